@@ -390,8 +390,8 @@ impl Prop for C12 {
     }
     fn runs(&self, tier: Tier) -> u64 {
         match tier {
-            Tier::Quick => 500_000,
-            Tier::Thorough => 8_000_000,
+            Tier::Quick => 300_000,
+            Tier::Thorough => 5_000_000,
         }
     }
     fn rule(&self) -> &'static str {
